@@ -330,6 +330,21 @@ func (c *c05) Plan(seed uint64, tier string, worker, workers, idx int) *Plan {
 		}
 		ops = append(ops, Op{Kind: "file", In: &in, FileKind: "real", NameExt: extMenu[r.Intn(len(extMenu))]})
 	}
+	if bi == 0 && !core.RaceEnabled {
+		// Limits at the very top of the 32-bit range, through a reader and a file, once per
+		// check: the unchanged library allocates a limit-sized buffer per call (4 GiB of
+		// address space; cheap only as long as nobody touches it), so a handful of calls is
+		// all - and none under the race detector, whose shadow memory would multiply it.
+		big := inputs.Input{Fam: "json", N: 6000}
+		nb := len(big.Bytes())
+		ops = append(ops,
+			Op{Kind: "setlimit", Limit: 1<<32 - 1},
+			Op{Kind: "reader", In: &big, Del: &simio.Delivery{Chunks: []int{4096, 1000}, FaultAt: -1}},
+			Op{Kind: "file", In: &big, Del: &simio.Delivery{FaultAt: nb - 700}},
+			Op{Kind: "setlimit", Limit: 1<<32 - 4095},
+			Op{Kind: "reader", In: &big, Del: &simio.Delivery{Chunks: []int{512}, FaultAt: nb - 3, FaultWithData: true}},
+			Op{Kind: "setlimit", Limit: pair.L})
+	}
 	// an interlude with another limit and another input: state must not be carried across calls
 	if r.Chance(1, 3) && len(ops) > 2 {
 		other := c.pairs[r.Intn(len(c.pairs))]
